@@ -226,6 +226,40 @@ Proof.
 Qed.
 Print Assumptions c18_md_dispatch.
 
+(* end to end at the MinidumpContext level: a write by any accepted name or alias is read back by
+   the type-erased get_register_always, by get_register under every validity that covers the name,
+   rendered by format_register, and returned by the dedicated accessor when the name is a spelling
+   of the sp / ip register - all register files, all values *)
+Theorem c18_md_roundtrip : forall c, In c all_contexts -> forall n, In n (accepted c) ->
+  forall rf v l, find_arm n (ct_set c) = Some l ->
+  set_reg c rf n v = Ret (Some (upd rf l v)) /\
+  md_get_always c (upd rf l v) n = Ret v /\
+  (forall s, md_get_register c (upd rf l v) n s = if is_valid c n s then Ret (Some v) else Ret None) /\
+  format_register c (upd rf l v) n = Ret (format_value c v) /\
+  (memoize c n = memoize c (ct_sp_name c) -> md_stack_pointer c (upd rf l v) = Ret v) /\
+  (memoize c n = memoize c (ct_ip_name c) -> md_instruction_pointer c (upd rf l v) = Ret v).
+Proof. intros c Hc. exact (md_roundtrip c (all_facts c Hc)). Qed.
+Print Assumptions c18_md_roundtrip.
+
+(* registers() / valid_registers() as ITERATORS (CpuRegisters::next): draining the iterator reads
+   every name of the initial state in order (REGISTERS under All, the set's members under Some) and
+   never runs out of fuel; on a state of known names each step yields the head with its location's
+   value; an exhausted iterator keeps answering None *)
+Theorem c18_register_iterator : forall c, In c all_contexts -> forall rf,
+  (forall v, cpu_valid_registers c rf v = mapM (named c rf) (cpu_iter_init c v)) /\
+  (forall r t, memoize c r <> None ->
+     cpu_iter_next c rf (r :: t) = Ret (Some (r, rf_get rf (loc_of c r)), t)) /\
+  cpu_iter_next c rf [] = Ret (None, []) /\
+  cpu_iter_collect (S (length (ct_registers c))) c rf (cpu_iter_init c VAll) =
+    Ret (listing c rf (ct_registers c)).
+Proof.
+  intros c Hc rf. pose proof (all_facts c Hc) as F.
+  split; [intro v; exact (cpu_valid_registers_mapM c rf v)|].
+  split; [exact (cpu_iter_step c F rf)|]. split; [reflexivity|].
+  destruct (enumerations c F rf) as [_ [_ [E _]]]. exact E.
+Qed.
+Print Assumptions c18_register_iterator.
+
 (* format_register (the model renders in Gallina, compared byte for byte with the code's String):
    "0x" followed by lower-case hexadecimal digits that denote exactly the value the unchecked read
    returns - at least 2*size_of::<Register>() digits, exactly that many when the value fits the
